@@ -25,6 +25,8 @@ CONFIGS = {
     "FCV3.s32.NTR": (7, "fcv", 3, 2**31 - 1, "NTR", "none"),
     "SV4.u8.NTR.led": (7, "sv", 4, 255, "NTR", "led"),
     "vec.u16.POD.amc": (0, "vec", 0, 65535, "TC", "amc"),
+    "vec.u32.NTR.ledr": (1, "vec", 0, 2**32 - 1, "NTR", "ledr"),
+    "SV3.u16.NTR.ledr": (3, "sv", 3, 65535, "NTR", "ledr"),
     "FCV6.u8.POD": (6, "fcv", 6, 255, "TC", "none"),
     "SV3.s32.POD.led": (6, "sv", 3, 2**31 - 1, "TC", "led"),
 }
